@@ -130,7 +130,11 @@ Definition settle (n : nat) (q : cstate) : cstate :=
   if q_frozen q then q
   else
     let k := Nat.min (q_wait q) (n - q_run q) in
-    mkC (q_wait q - k) 0 (q_run q + k) (q_runl q) false (q_started q + k) (q_startedl q) (q_returned q + q_waitc q).
+    let run' := q_run q + k in
+    (* calls with a cancelled context need a token to get through: they all return once a token
+       is free (test scripts never leave both kinds waiting for the same token) *)
+    let ret := if Nat.ltb run' n then q_waitc q else 0 in
+    mkC (q_wait q - k) (q_waitc q - ret) run' (q_runl q) false (q_started q + k) (q_startedl q) (q_returned q + ret).
 
 (* observation after a command, at quiescence *)
 Record obs := mkO {
